@@ -92,6 +92,11 @@ def expand(repo=REPO, log=None):
                 shutil.rmtree(scratch, ignore_errors=True)
             info['expand_s'] = round(time.time() - t0, 2)
             _prune(os.path.join(CACHE, 'exp'), keep=th)
+        else:
+            try:
+                os.utime(cdir, None)
+            except OSError:
+                pass
     finally:
         fcntl.flock(lockf, fcntl.LOCK_UN)
         lockf.close()
